@@ -69,8 +69,8 @@ LEVEL_A = [
          what='a float whose repr uses an exponent prints as 1e-05 / 1.0000000000000001e+23, which is not a numeric literal of the grammars (KF-C04-8)',
          site='ast/select/constant.py Constant.get_string: str(self.value)'),
     dict(key='func-quoted', feats=['func-quoted'], allow=[],
-         what='a function whose name was written quoted is printed with the bare name: DROP VIEW "a b" ( ), a prints `a b()`; '
-              'CREATE MODEL a PREDICT "a b" ( ) prints `a b()`', site='ast/select/operation.py Function.get_string'),
+         what='a function whose name is a clause / operator keyword and was therefore written quoted (`select`(), `from`(1)) is printed with the bare name, which is read as the keyword (names that are not plain words are back-quoted since b1dd7a3)',
+         site='ast/select/operation.py Function.get_string'),
     dict(key='setop-right-nested', feats=['setop-right-nested'], allow=['setop-nested'],
          what='parentheses around a set operation that is the right operand of another one are dropped (the rules `select : ( select ) | ( union )` '
               'return the inner node without a flag): SELECT a EXCEPT (SELECT a EXCEPT SELECT *) is printed flat and re-read left-nested '
@@ -112,6 +112,26 @@ FIXED_NEW = [dict(property='C01', status='fixed', commit='8cbc399',
                   site='dialects/mindsdb/agents.py CreateAgent.get_string', **{'class': 'CreateAgent whose model is absent'},
                   signatures=[dict(kind='print-unstable', exc='', root='*', feats=['prints-None'], allow=[])],
                   witness=dict(dialect='mindsdb', sql='CREATE AGENT a USING a = 1', printed='CREATE AGENT a USING model=None, a=1'))]
+
+
+# why an open entry is open (HEAD is frozen: no further repairs are proposed)
+WHY_OPEN = {
+    'func-quoted': 'pinned by tests: quoting function names that are reserved words (the only way to print `select`() back) changes the printed form of '
+                   'database(), left(), ... — tried on HEAD: tests/test_parser/test_base_sql/test_select_operations.py::TestOperationsNoSqlite::'
+                   'test_select_function_no_args, ::TestOperationsMindsdb::test_function_with_namespace, test_mindsdb/test_variables.py::test_select_variable, '
+                   'test_standard_render.py and test_render/test_sqlalchemyrender.py::TestFromParser::test_from_parser fail',
+    'setop-parens': 'corner shape, repair not attempted: a doubly parenthesised set operation in expression position (PREDICT ((a UNION b))) needs the expr rule '
+                    '`LPAREN select RPAREN` and the sub-select printer to keep two pairs of parentheses (printer + grammar action change)',
+    'root:Show': 'pinned by test tests/test_parser/test_mysql/test_mysql_parser.py::TestMySQLParser::test_show_index (str(ast).lower() == sql.lower() with the reserved '
+                 'word `predictors` unquoted after FROM) and test_standard_render.py — tried: quoting reserved words in SHOW ... FROM / IN makes both fail; the third shape (SHOW ENGINE a "a b": the custom-command rule keeps the name as raw text) '
+                 'needs the rule to keep an Identifier, not attempted',
+    'root:CreatePredictor': 'corner shape, repair not attempted: PREDICT db.*(DISTINCT a) — the grammar action of `identifier LPAREN DISTINCT expr_list RPAREN` takes '
+                            'op = parts[0] and drops the other parts (a Star among them); needs a grammar-action change (reject or keep multi-part names)',
+    'root:CreateTable': 'corner shape, repair not attempted: CREATE TABLE t (PRIMARY KEY (a)) has only a table constraint; CreateTable keeps no node for it when no listed '
+                        'column carries it, so the printer emits `()` — needs an AST field plus a printer rewrite',
+    'root:Describe': 'corner shape, repair not attempted: DESCRIBE a.1 b (object type written as a dotted name with a numeric part) prints `DESCRIBE 1 b`; the rule '
+                     '`DESCRIBE identifier identifier` keeps only the last part of the type — needs a grammar decision (reject dotted types)',
+}
 
 
 def main():
@@ -187,7 +207,7 @@ def main():
                     print('preferred witness not in its group:', g['key'], wf['cls'])
         out.append(dict(
             id='KF-C01-%d' % n, property='C01', status='open', what=g['what'], site=g['site'],
-            **({'fix_proposed': g['fix']} if 'fix' in g else {}),
+            **({'why_open': WHY_OPEN[g['key']]} if g['key'] in WHY_OPEN else {'why_open': 'repair not attempted before the code freeze'}),
             **{'class': 'any statement whose minimised failing form has the feature(s) %s (other features only from %s + benign ones); '
                         'failure kinds listed in the signatures' % (g['feats'], g['allow'])},
             signatures=[dict(kind=k, exc=sorted(v) if len(v) > 1 else sorted(v)[0], root='*', feats=g['feats'], allow=g['allow'])
@@ -208,6 +228,7 @@ def main():
             what='%s statements: get_string does not mirror the grammar rule in %d minimised shape(s): %s' % (
                 root, len(items), ' ;; '.join(lines[:6]) + (' ;; ...' if len(lines) > 6 else '')),
             site='get_string / grammar rule of %s' % root,
+            why_open=WHY_OPEN.get('root:' + root, 'repair not attempted before the code freeze'),
             **{'class': 'root statement class %s with exactly the listed (failure kind, features, set root attributes) combinations' % root},
             signatures=sigs, witness=dict(dialect=e0['dialect'], sql=e0['shrunk'], printed=e0.get('printed'))))
     # ---- stable ids: an entry keeps the id of the merged entry with the same `class` text; repaired ones become `fixed`
@@ -236,7 +257,7 @@ def main():
         nxt += 1
         out.append(dict(extra, id='KF-C01-%d' % nxt))
     full = out
-    same = lambda a, b: all(a.get(f) == b.get(f) for f in ('status', 'what', 'signatures', 'witness', 'class', 'site'))
+    same = lambda a, b: all(a.get(f) == b.get(f) for f in ('status', 'what', 'signatures', 'witness', 'class', 'site', 'why_open'))
     old_by_id = {k['id']: k for k in merged}
     out = [k for k in full if k['id'] not in old_by_id or not same(k, old_by_id[k['id']])]
     print('entries total', len(full), 'changed/new', [k['id'] for k in out])
